@@ -24,6 +24,8 @@ CORE = [
     ("add", A.C52S, "l", "wait-for-all"),
     ("delay", 100, "l"),
     ("target", "q1", "l"),
+    ("target", ["q0", "q2"], "l"),  # a caller-owned list, positional ...
+    ("target_kw", ["q1", "q2"], "l"),  # ... and by keyword
     ("align", ("g", "l"), True),
     ("phase_shift", 1.0, ("q0",), "digital"),
     ("enable_eom", "g", 2.0, 0.0, -10.0, False),
@@ -134,6 +136,7 @@ XY_CORE = [
     ("add", A.C52S, "m", "no-delay"),
     ("delay", 100, "m"),
     ("slm", ["q0"]),
+    ("slm_kw", ["q1", "q2"]),
     ("magfield", 0.0, 1.0, 1.0),
     ("phase_shift", 1.0, ("q0",), "XY"),
     ("measure", "XY"),
@@ -415,7 +418,7 @@ BASE_LIMITS = dict(max_amp=20.0, max_det=60.0, max_dur=1000, min_avg_amp=0.1, bo
 
 
 def plan(tier, seed):
-    core_small = [CORE[i] for i in (0, 1, 2, 3, 5, 8, 9, 12, 13, 14, 15)]
+    core_small = [CORE[i] for i in (0, 1, 2, 3, 5, 6, 7, 10, 11, 14, 15, 16, 17)]
     plans = [
         (corner("real", prefix=A.GL, qubits=3, reusable=False, max_seq=400, name="real-physical-400", **BASE_LIMITS),
          _alphabet(CORE, FAULTS, RO), 2),
